@@ -1,5 +1,9 @@
 import Sftp.Model.Pipe
 /-
+  STATUS: repaired in /repo (the `fini` branch now drains both channels and sends, Serve waits for the controller);
+  the full-strength theorem is `Sftp.C02.every_request_answered`.  What follows is the witness for the PINNED
+  controller, `PipeCfg.pinned` = today's configuration with `drainOnFini := false`.
+
   C02, known finding F5: the controller's `select` may take the `fini` branch while a response is still queued
   on the `responses` channel, so the answer to the last request(s) before EOF can be lost.
   (`packetManager.close` waits for `working` = 0, and `readyPacket` calls `working.Done()` right after the
@@ -13,15 +17,15 @@ open Sftp.Pipe
 closes, the dispatcher shuts down and the controller takes `fini` first.  One request received, none answered,
 the response is still sitting in the `responses` channel. -/
 theorem drop_witness :
-    (run .current (init .current)
+    (run .pinned (init .pinned)
       [.recv ⟨5, .cmd⟩, .dispatch, .cmdTake, .cmdHandle, .cmdReady, .closeInput, .dispatcherShutdown,
        .ctlFini]).map (fun s => (s.received.length, s.sent.length, s.respInbox, s.controllerStopped, s.working))
       = some (1, 0, [⟨1, 5, .cmd⟩], true, 0) := by decide
 
 /-- and from there nothing the controller could do is enabled any more -/
 theorem drop_is_final :
-    ((run .current (init .current)
+    ((run .pinned (init .pinned)
       [.recv ⟨5, .cmd⟩, .dispatch, .cmdTake, .cmdHandle, .cmdReady, .closeInput, .dispatcherShutdown,
-       .ctlFini]).bind (fun s => step .current s .ctlTakeResp)).isNone = true := by decide
+       .ctlFini]).bind (fun s => step .pinned s .ctlTakeResp)).isNone = true := by decide
 
 end Sftp.C02.Known
